@@ -2,10 +2,27 @@
 from .progfam import *
 
 
+TRAILS = [" // end", "\n// end of file", " /* end */", "\n", " // é\r\n", "\t"]
+
+
+def _layouts(cs, tier):
+    """Layout variants (token separators) and, for a spread subset, text after the last token: a final line comment
+    without line terminator, a block comment, line terminators."""
+    out = layout_variants(cs, ("names",), [" ", "tight"] if tier == "quick" else [" ", "tight", "\n", " /* c */ ", "\t"])
+    extra = []
+    for i, c in enumerate(out):
+        if c.get("family") == "names" and i % 5 == 0:
+            d = dict(c)
+            d["trail"] = TRAILS[(i // 5) % len(TRAILS)]
+            d["lead"] = ("", "// first line\n", "\n\n", "/* a */ ")[(i // 5) % 4]
+            extra.append(d)
+    return out + extra
+
+
 def run(tier, seed):
     return run_prog_property(
         "C17", ["names"], tier, seed, verdict_fams=("names",),
-        expand=lambda cs: layout_variants(cs, ("names",), [" ", "tight"] if tier == "quick" else [" ", "tight", "\n", " /* c */ ", "\t"]),
+        expand=lambda cs: _layouts(cs, tier),
         rule="MC_Names.tla: a template program that uses a name in each of 10 naming roles (alias definition+use, function "
              "definition+call, fold function, for_while function, function parameter, let variable, tuple-pattern variable, "
              "variable in expression position, match-arm variable, witness, parameter). For every identifier of NameTable.tla "
